@@ -93,6 +93,28 @@ func RunC17(tier string) int {
 			}
 		}
 	}
+	if !thorough {
+		// quick: listings of three versions in every order, single requests only
+		// (a wrong ordering of the candidates needs at least three to show)
+		var triples [][]int
+		n := len(c17Universe)
+		for a := 0; a < n; a++ {
+			for b := 0; b < n; b++ {
+				for c := 0; c < n; c++ {
+					if a != b && b != c && a != c {
+						triples = append(triples, []int{a, b, c})
+					}
+				}
+			}
+		}
+		for _, l := range triples {
+			for _, a := range singles {
+				jobs = append(jobs, job{l, -1, []AddCall{a}})
+			}
+			jobs = append(jobs, job{l, 1, []AddCall{singles[0]}})
+		}
+		lists = append(lists, triples...)
+	}
 	mkWorld := func(j job) World {
 		w := World{}
 		for i := range c17Universe {
